@@ -16,6 +16,9 @@ class ExportConfigBash(ExportConfig):
         if value is None:
             value = ''
         elif isinstance(value, str):
+            # characters that keep a special meaning inside double quotes
+            for symbol in ["\\", "\"", "$", "`"]:
+                value = value.replace(symbol, "\\"+symbol)
             value = f"\"{value}\""
         elif isinstance(value, bool):
             value = "0" if value else "-1"   # in bash 0 is true and usually 1, -1 for error
